@@ -286,9 +286,94 @@ def reader_pipelines():
                    f"def {lean} : List Step :=\n  {lean_steps(steps)}\n")
     return "\n".join(out)
 
+
+# ------------------------------------------------------------------ C06 view / page / protection codecs (w21)
+# One Lean definition per item, so that the fallback (which keeps ONE definition of the item's name) is exact.
+
+def _enum_impls(path, ty):
+    src = strip_comments(open(os.path.join(REPO, path)).read())
+    disp = block_after(src, "impl EnumTrait for " + ty, "{", "}")
+    frm = block_after(src, "impl FromStr for " + ty, "{", "}")
+    dflt = block_after(src, "impl Default for " + ty, "{", "}")
+    return disp, frm, dflt
+
+def enum_to_str(path, ty, lean):
+    def f():
+        disp, _, _ = _enum_impls(path, ty)
+        d = [(m.group(1), lit_value(m)) for m in re.finditer(r"Self::(\w+)\s*=>\s*" + STR + r"\s*,", disp)]
+        if not d or len(re.findall(r"=>", disp)) != len(d):
+            raise ValueError("get_value_string arms of an unknown form")
+        return (f"/-- translated from `{path}`: `impl EnumTrait for {ty}` (variant, text), order kept -/\n"
+                f"def {lean} : List (String × String) :=\n  [" + ", ".join(f"({lean_str(a)}, {lean_str(b)})" for a, b in d) + "]\n")
+    return f
+
+def enum_from_str(path, ty, lean):
+    def f():
+        _, frm, _ = _enum_impls(path, ty)
+        d = [(lit_value(m), m.group("v")) for m in re.finditer(STR + r"\s*=>\s*Ok\s*\(\s*Self::(?P<v>\w+)\s*\)", frm)]
+        if not d or len(re.findall(r"=>", frm)) != len(d) + 1 or not re.search(r"_\s*=>\s*Err\s*\(\s*\(\s*\)\s*\)", frm):
+            raise ValueError("from_str arms of an unknown form")
+        return (f"/-- translated from `{path}`: `impl FromStr for {ty}` (text, variant; anything else is `Err`), order kept -/\n"
+                f"def {lean} : List (String × String) :=\n  [" + ", ".join(f"({lean_str(a)}, {lean_str(b)})" for a, b in d) + "]\n")
+    return f
+
+def enum_default(path, ty, lean):
+    def f():
+        _, _, dflt = _enum_impls(path, ty)
+        body = block_after(dflt, "fn default", "{", "}")
+        m = re.fullmatch(r"\s*Self::(\w+)\s*", body)
+        if not m: raise ValueError("default() of an unknown form")
+        return (f"/-- translated from `{path}`: `impl Default for {ty}` -/\n"
+                f"def {lean} : String := {lean_str(m.group(1))}\n")
+    return f
+
+def attr_read_table(path, lean):
+    """`set_string_from_xml!(self, e, <field>, "<attr>");` lines of `set_attributes`, in order"""
+    def f():
+        src = strip_comments(open(os.path.join(REPO, path)).read())
+        body = fn_body(src, "set_attributes")
+        rows = [(m.group(1), lit_value(m)) for m in
+                re.finditer(r"set_string_from_xml!\s*\(\s*self\s*,\s*e\s*,\s*(\w+)\s*,\s*" + STR + r"\s*,?\s*\)\s*;", body)]
+        rest = re.sub(r"set_string_from_xml!\s*\(\s*self\s*,\s*e\s*,\s*\w+\s*,\s*" + STR.replace("?P<raw1>", "?:").replace("?P<raw0>", "?:").replace("?P<esc>", "?:") + r"\s*,?\s*\)\s*;", "", body)
+        if not rows or rest.strip():
+            raise ValueError("set_attributes is not a plain list of set_string_from_xml! lines")
+        return (f"/-- translated from `{path}` fn `set_attributes`: (field, attribute) of every `set_string_from_xml!` line, order kept -/\n"
+                f"def {lean} : List (String × String) :=\n  [" + ", ".join(f"({lean_str(a)}, {lean_str(b)})" for a, b in rows) + "]\n")
+    return f
+
+def attr_write_table(path, lean):
+    """`if self.<c>.has_value() { attributes.push(("<attr>", <text of field v>)); }` statements of `write_to`, in order:
+    (field tested, attribute, field whose text is pushed); `&local` is resolved through `let local = self.<v>.get_value_string();`"""
+    def f():
+        src = strip_comments(open(os.path.join(REPO, path)).read())
+        body = fn_body(src, "write_to")
+        locals_ = {m.group(1): m.group(2) for m in re.finditer(r"let\s+(\w+)\s*=\s*self\s*\.\s*(\w+)\s*\.\s*get_value_string\s*\(\s*\)\s*;", body)}
+        rows = []
+        pat = (r"if\s+self\s*\.\s*(\w+)\s*\.\s*has_value\s*\(\s*\)\s*\{\s*attributes\s*\.\s*push\s*\(\s*\(\s*" + STR +
+               r"\s*,\s*(?:&\s*(?P<loc>\w+)|self\s*\.\s*(?P<fld>\w+)\s*\.\s*get_value_(?:str|string)\s*\(\s*\))\s*,?\s*\)\s*\)\s*;\s*\}")
+        for m in re.finditer(pat, body):
+            v = m.group("fld") if m.group("fld") else locals_.get(m.group("loc"))
+            if v is None: raise ValueError("pushed value of an unknown form")
+            rows.append((m.group(1), lit_value(m), v))
+        if not rows or len(rows) != len(re.findall(r"attributes\s*\.\s*push\s*\(", body)):
+            raise ValueError("a push of an unknown form")
+        return (f"/-- translated from `{path}` fn `write_to`: (field tested with `has_value`, attribute pushed, field whose text is pushed), order kept -/\n"
+                f"def {lean} : List (String × String × String) :=\n  [" + ", ".join(f"({lean_str(a)}, {lean_str(b)}, {lean_str(c)})" for a, b, c in rows) + "]\n")
+    return f
+
+VIEW_ITEMS = []
+for _path, _ty, _lean in (("src/structs/pane_values.rs", "PaneValues", "pane_values"), ("src/structs/pane_state_values.rs", "PaneStateValues", "pane_state_values"),
+                          ("src/structs/sheet_view_values.rs", "SheetViewValues", "sheet_view_values"), ("src/structs/orientation_values.rs", "OrientationValues", "orientation_values")):
+    VIEW_ITEMS += [(_lean + "_to_str", enum_to_str(_path, _ty, _lean + "_to_str")), (_lean + "_from_str", enum_from_str(_path, _ty, _lean + "_from_str")),
+                   (_lean + "_default", enum_default(_path, _ty, _lean + "_default"))]
+VIEW_ITEMS += [("sheet_protection_read_table", attr_read_table("src/structs/sheet_protection.rs", "sheet_protection_read_table")),
+               ("sheet_protection_write_table", attr_write_table("src/structs/sheet_protection.rs", "sheet_protection_write_table")),
+               ("workbook_protection_read_table", attr_read_table("src/structs/workbook_protection.rs", "workbook_protection_read_table")),
+               ("workbook_protection_write_table", attr_write_table("src/structs/workbook_protection.rs", "workbook_protection_write_table"))]
+
 ITEMS = [("builtin_format_codes", builtin_formats), ("formula_errors", formula_errors), ("date_format_replacements", date_tables),
          ("cell_error_display", cell_errors), ("write_start_tag_escape", writer_pipelines), ("unescape_text_normalise", reader_pipelines),
-         ("driver_shape", driver_shape)]
+         ("driver_shape", driver_shape)] + VIEW_ITEMS
 
 HEADER = ("/-\n  GENERATED by tools/extract_tables.py from the current source of /repo — do not edit.\n"
           "  Constant tables and escape / normalisation pipelines the hand model copies.\n-/\n"
